@@ -80,7 +80,7 @@ def plan(tier):
         n_t, per_t, n_b, per_b, n_c = 56, 260, 8, 400, 8
     shards = [{"kind": "hyp", "name": f"type{i}", "examples": per_t, "what": "type"} for i in range(n_t)]
     shards += [{"kind": "hyp", "name": f"bf{i}", "examples": per_b, "what": "bitfield"} for i in range(n_b)]
-    n_p, per_p = (1, 16) if tier == "quick" else (4, 200)
+    n_p, per_p = (1, 12) if tier == "quick" else (4, 200)
     shards += [{"kind": "hyp", "name": f"pair{i}", "examples": per_p, "what": "tmplpair"} for i in range(n_p)]
     shards += [{"kind": "enum", "name": f"catalog{i}", "part": i, "parts": n_c, "tier": tier} for i in range(n_c)]
     return shards
